@@ -223,9 +223,10 @@ func report(g *Gen, p *PropConfig, bl *Baseline, out *CheckOutcome, tier string,
 		"wall_s":      time.Since(start).Seconds(),
 		"violations":  len(vioLines),
 	}
-	os.MkdirAll(filepath.Join(verif, "evidence"), 0o755)
+	evDir := env("VERIF_EVIDENCE_DIR", filepath.Join(verif, "evidence"))
+	os.MkdirAll(evDir, 0o755)
 	b, _ := json.MarshalIndent(ev, "", " ")
-	os.WriteFile(filepath.Join(verif, "evidence", p.ID+".json"), b, 0o644)
+	os.WriteFile(filepath.Join(evDir, p.ID+".json"), b, 0o644)
 
 	fmt.Printf("property %s tier=%s: %d/%d baseline obligations discharged over %d functions (%d under contract); %d not claimed; %.1fs\n",
 		p.ID, tier, discharged, obligations, len(out.Funcs), len(underContract), len(out.Results)-obligations-covTotal, time.Since(start).Seconds())
